@@ -130,8 +130,47 @@ changes in interactions with other language features and APIs):
 | C20-7 | silent | files that begin with blank lines and comments |
 | C20-8 | silent | a second package whose import path differs from its name |
 
+Fourth round (changes 9-11; the authors knew the titles of the first eight and were told that ordinary programs
+would not do: the change had to need something specific and unusual):
+
+| change | first result | what was added |
+|---|---|---|
+| C01-9 | silent | generator: a loop variable named like the variable that is ranged over |
+| C01-10 | silent | initialisation-order programs: 3-7 packages that import fmt and each other and print while they are initialised (the order is fixed by Go since 1.21) |
+| C01-11 | silent | sentinel: methods entered with a nil receiver that call further methods on it or hand it on |
+| C02-11 | silent | snippets: case values and conditions ending in local +- constant; a missing string-map entry used as a string |
+| C03-9 | silent | file trees: files whose header comment never ends (also as a dependency of a loaded package) |
+| C03-11 | silent | Call / Func on script variables that hold nil functions, nil references, nil slices and maps |
+| C05-9, C05-11 | silent / C01, C02 reported | character and bool literals as operands, unary operators on literals |
+| C05-10 | C05 silent (C01 reported it) | every expression also in the header of an if / switch statement |
+| C06-11 | C06 silent (C01 reported it) | nested loops that all call their variable i |
+| C08-9 | silent | range expressions that mention the names the loop declares |
+| C09-9 | silent | methods entered with a nil receiver that call further methods on it |
+| C09-10 | silent | callees that keep the slice their surplus arguments were packed into |
+| C09-11 | C09 silent (C01, C07 reported it) | typed multi-variable declaration from one call |
+| C10-9 | silent | two range loops over the map starting on one source line |
+| C10-11 | silent | make with a size hint |
+| C11-10 | silent | a literal of nine constants evaluated again and again |
+| C12-9 | silent | a local type declared before a function literal and used after it, named like the package type |
+| C12-10 | silent | a type declared again with 12-20 more methods; instances made before call them |
+| C12-11 | silent | the library's methods in a file that sorts before the file with its types |
+| C14-10 | silent | two types using the same field names in opposite orders |
+| C15-9 | silent | init functions that use a function and a variable of the file that sorts last |
+| C16-10 | silent | package functions named max, min and clear |
+| C16-11 | silent | a multi-valued call as the only argument of another call (compared between layouts; see K07) |
+| C17-9 | silent | a package variable initialised with a function literal, pointed at a declared function in between |
+| C17-10 | silent | a version whose top-level code fails at run time, followed by further loads |
+| C17-11 | silent | the host calls the variable that holds a function by name after every step |
+| C18-9, C18-10 | silent | named scalar types with a block-local namesake and a later re-declaration around identical statements |
+| C18-11 | silent | script packages imported by separate statements, two of them sharing their package name |
+| C19-9 | C19 silent (C07 reported it) | natives that leave more values than they declare, called by name |
+| C19-10 | INCONCLUSIVE: every check hung (the harness wraps natives with Set, and under this change the wrapper replaced the wrapped function itself) | guard wrappers detect being re-entered; one function value under two names, one of them set again |
+| C19-11 | caught once the rebind case existed | natives registered by a loader under stock names |
+| C20-9 | silent | the same failing call made twice on one VM |
+| C20-10 | silent | a const block whose implicitly repeated expression fails at run time |
+
 While these inputs were added, the strengthened checks met more genuine defects of the pinned tree
-(F44-F51 and K05, K06 in known_findings.json), among them two the C03 sub-agent had noticed on the
+(F44-F52 and K05-K07 in known_findings.json), among them two the C03 sub-agent had noticed on the
 unchanged tree while looking for places to plant its changes.
 """)
 print(open('/verif/seeded/RESULTS.md').read())
